@@ -31,7 +31,8 @@ Proof. exact w_fin_facts. Qed.
 Print Assumptions C09_jump_through_finally_repaired.
 
 (* For every function body built from assignments, uses, calls, pass, return, raise,
-   break, continue, if/else, while/for with else, `while True`, suppressing and non-suppressing
+   break, continue, if/else, while/for with else (loops that may run zero times, loops that run
+   at least once, `while True`), suppressing and non-suppressing
    with, and try/except/else/finally, nested to any depth, that satisfies the decidable guard
    lower_ok (nothing follows, in the same block, a break/continue or a statement ending in one in
    the current dict): strict reaching definitions are reported -- including break/continue that
@@ -75,6 +76,14 @@ Example C09_guard_inhabited :
   reported w_ok 7 = [1; 0; 2; 3; 4] /\ possibly_undefined w_ok 7 = true /\ undefined_name w_ok 7 = false.
 Proof. exact w_ok_facts. Qed.
 Print Assumptions C09_guard_inhabited.
+
+(* loops that run at least once (`for v in (K,):`, kind LAlways) are inside the lower-bound theorem;
+   after such a loop and in its else clause the target is bound *)
+Example C09_always_entered_loop :
+  lower_ok w_always = true /\ reported w_always 3 = [5] /\ reported w_always 5 = [5] /\ reported w_always 6 = [5] /\
+  undefined_name w_always 5 = false /\ possibly_undefined w_always 6 = false.
+Proof. exact w_always_facts. Qed.
+Print Assumptions C09_always_entered_loop.
 
 Example C09_guard_inhabited_with_jumps :
   lower_ok w_brk = true /\ has_jump_b w_brk = true /\ strict_reach w_brk 8 1 /\
